@@ -115,7 +115,8 @@ def u1():
             init_chains=[(0,), (0, 1), (0, 1, 2, 3), (0, 1, 2, 3, 4), (0, 1, 2, 3, 4, 12)])
     # peer 2 may also connect without SFNodeNetwork: connected, heard, never a sync CANDIDATE
     u["light_peers"] = [2]
-    u["light_start"] = [0]
+    u["light_start"] = [7]
+    u["light_first_only"] = True
     return u
 
 
@@ -248,6 +249,7 @@ def tla(u):
            # peers that may also connect WITHOUT offering SFNodeNetwork (not sync candidates)
            "LightPeers == {" + ", ".join(str(x) for x in u.get("light_peers", [])) + "}",
            "LightStart == {" + ", ".join(str(x) for x in u.get("light_start", u["start_heights"])) + "}",
+           "LightFirstOnly == " + ("TRUE" if u.get("light_first_only") else "FALSE"),
            "StartHeights == {" + ", ".join(str(x) for x in u["start_heights"]) + "}",
            "InvIds == {" + ", ".join(str(x) for x in u["inv_ids"]) + "}",
            "MaxCF == %d" % u["max_cf"],
